@@ -587,3 +587,21 @@ func registerBelow(v *Val, next *Term) {
 	}
 	walk(v)
 }
+
+// normStrings: string values are immutable and have no observable identity, so
+// a string parameter / call result may be taken to start at offset 0 of its own
+// object without loss of generality (its object's contents are unconstrained).
+// Returns the number of strings normalised.
+func normStrings(v *Val) int {
+	n := 0
+	switch v.K {
+	case VString:
+		v.Off = IntLit(0)
+		n++
+	case VTuple:
+		for _, e := range v.El {
+			n += normStrings(e)
+		}
+	}
+	return n
+}
